@@ -7,7 +7,7 @@
 From Coq Require Import List Arith Bool NArith.
 From FFSM2 Require Import Model.TaskList Model.BitArray Model.BitStream Model.Plan Model.Ancestors Model.Machine
   Proofs.BitArrayProofs Proofs.TaskListProofs Proofs.TaskListRun Proofs.PlanProofs Proofs.MachineFrame Proofs.MachinePlan Proofs.MachineLife Proofs.GuardProofs Proofs.CycleProofs Proofs.PlanStep
-  Proofs.SerialProofs Proofs.LogProofs Proofs.MachineTop Model.Multi Generated.InitFacts Proofs.ConstructProofs Proofs.LifeMonitor Proofs.ActivationRounds Proofs.IndexSafety Proofs.FeatureProofs Model.Script Proofs.Contract Proofs.Histories Proofs.StatusBits.
+  Proofs.SerialProofs Proofs.LogProofs Proofs.MachineTop Model.Multi Generated.InitFacts Proofs.ConstructProofs Proofs.LifeMonitor Proofs.ActivationRounds Proofs.IndexSafety Proofs.FeatureProofs Model.Script Proofs.Contract Proofs.Histories Proofs.StatusBits Proofs.Worlds Model.Cxx Generated.LeafCode Proofs.LeafTactics Proofs.LeafConsts Proofs.LeafCodeTaskList.
 Import ListNotations.
 
 (* changeWith(d, p) from outside stores exactly (255, d, Some p); changeTo stores None *)
@@ -27,7 +27,7 @@ Theorem C07_guards_see_the_request :
          plan_inv_ok P cfg PI ->
          wf_oracle P cfg orc ->
          forall (cur pend : transition P) (s : mstate P) (w : who) (r : recipient) 
-           (m : method) (v : Machine.view P),
+           (m : Ancestors.method) (v : Machine.view P),
          In (EvCb P w r m v) (tr P (fst (cancelled_by_guards P cfg orc cur pend s))) ->
          In (EvCb P w r m v) (tr P s) \/ v_kind P v = KGuard /\ v_cur P v = cur /\ v_pend P v = pend.
 Proof. exact (guards_see_pending). Qed.
@@ -38,7 +38,8 @@ Theorem C07_destination_sees_the_survivor :
   forall (P : Type) (cfg : config) (orc : oracle P) (PI : plan_data P -> Prop),
          plan_inv_ok P cfg PI ->
          wf_oracle P cfg orc ->
-         forall (cur : transition P) (s : mstate P) (w : who) (r : recipient) (m : method) (v : Machine.view P),
+         forall (cur : transition P) (s : mstate P) (w : who) (r : recipient) (m : Ancestors.method)
+           (v : Machine.view P),
          In (EvCb P w r m v) (tr P (deep_change_to_requested P cfg orc cur s)) ->
          In (EvCb P w r m v) (tr P s) \/ v_kind P v = KPlan /\ v_cur P v = cur.
 Proof. exact (lifecycle_sees_current). Qed.
@@ -106,7 +107,7 @@ Theorem C07_no_payload_invented :
          (c_history cfg = true -> t_pay P (previous P (co P s')) = None) /\
          (exists l : list (event P),
             tr P s' = l ++ tr P s /\
-            (forall (w : who) (r : recipient) (m : method) (v : Machine.view P),
+            (forall (w : who) (r : recipient) (m : Ancestors.method) (v : Machine.view P),
              In (EvCb P w r m v) l ->
              t_pay P (v_req P v) = None /\ t_pay P (v_cur P v) = None /\ t_pay P (v_pend P v) = None)).
 Proof. exact (no_payload_invented). Qed.
@@ -138,11 +139,11 @@ Theorem C07_every_processing_step_of_every_history :
          forall (lg : bool) (pre : list (api_op P)) (op : api_op P) (post : list (api_op P)),
          ops_ok P cfg orc (construct P cfg orc lg) (pre ++ op :: post) ->
          is_processing_op P op = true ->
-         let s := run P cfg orc lg pre in
+         let s := Machine.run P cfg orc lg pre in
          let a := active P (co P s) in
          exists s5 : mstate P,
            Ready P cfg s5 a /\
-           run P cfg orc lg (pre ++ [op]) = process_request P cfg orc s5 /\
+           Machine.run P cfg orc lg (pre ++ [op]) = process_request P cfg orc s5 /\
            (exists l : list (event P), tr P s5 = l ++ tr P s /\ MachineFrame.quiet P cfg a l).
 Proof. exact (every_processing_step_of_every_history). Qed.
 Print Assumptions C07_every_processing_step_of_every_history.
